@@ -8,12 +8,12 @@ says whether relations may cross an iframe boundary (both are switched inside th
 from __future__ import annotations
 from pyvc.dsl import abstract
 from pyvc.types import INT, BOOL, STR, TOpt, TSeq
-from pyvc.tree import (NODE as Node, SEQ_NODE as SeqNode, CSSMATCH as M, NSMAP as NsMap, SELLIST as SelList, SEL as Sel,
+from pyvc.tree import (ATTRVAL as AttrVal, OPT_ATTRVAL as OptAttrVal, SEQ_RAW as SeqRaw, NODE as Node, SEQ_NODE as SeqNode, CSSMATCH as M, NSMAP as NsMap, SELLIST as SelList, SEL as Sel,
                        SELTAG as SelTag, SELATTR as SelAttr, SELNTH as SelNth, SELCONTAINS as SelContains, SELLANG as SelLang,
                        FLAGS as Flags)
 from spec.vocab_tree import (parent, contents, idx, depth, is_tag, is_doc, is_navstr, is_comment, is_cdata, is_pi, is_decl,
                              is_doctype, text, name, prefix, namespace, is_xml_flag, next_sibling, previous_sibling, same,
-                             ascii_lower, ns_get, html_ns_map, fake_parent, NS_XHTML, NS_XML)
+                             ascii_lower, ns_get, html_ns_map, fake_parent, rattrs, norm, as_str, is_str_val, NS_XHTML, NS_XML)
 from spec.vocab_ir import (sel_is_null, SEL_EMPTY, SEL_ROOT, SEL_DEFAULT, SEL_INDETERMINATE, SEL_SCOPE, SEL_DIR_LTR, SEL_DIR_RTL,
                            SEL_IN_RANGE, SEL_OUT_OF_RANGE, SEL_DEFINED, SEL_PLACEHOLDER_SHOWN, DIR_FLAGS, RANGES)
 
@@ -238,11 +238,6 @@ def sem_classes(m: M, el: Node, classes: SeqStr) -> bool:
 @abstract
 def sem_attrs(m: M, ns: NsMap, el: Node, attrs: SeqSelAttr) -> bool:
     return _ref.sem_attrs(m, ns, el, attrs)
-
-
-@abstract
-def sem_range(m: M, el: Node, cond: Flags) -> bool:
-    return _ref.sem_range(m, el, cond)
 
 
 @abstract
@@ -515,3 +510,78 @@ def kids_spec(m: M, el: Node, start: OptInt, reverse: bool, tags: bool, no_ifram
     """get_children(): contents of el from `start` (default: the first, or the last when reversed), forwards or backwards,
     only Tags when asked; nothing for a missing element or (no_iframe) an iframe."""
     return _ref.kids_spec(m, el, start, reverse, tags, no_iframe)
+
+
+# ---------------------------------------------------------------------------------------------- attributes (C01.O5, C11.O3, C18)
+
+def raw_index(seq: SeqRaw, key: str, i: int) -> int:
+    """Index of the first pair from position i on whose key equals `key` exactly (XML trees), -1 when there is none."""
+    if i < 0 or i >= len(seq):
+        return -1
+    if seq[i][0] == key:
+        return i
+    return raw_index(seq, key, i + 1)
+
+
+def raw_index_ci(seq: SeqRaw, key: str, i: int) -> int:
+    """... whose key equals `key` after ASCII lower-casing (HTML trees)."""
+    if i < 0 or i >= len(seq):
+        return -1
+    if ascii_lower(seq[i][0]) == key:
+        return i
+    return raw_index_ci(seq, key, i + 1)
+
+
+def attr_by_name(el: Node, key: str, default: OptAttrVal) -> OptAttrVal:
+    """Normalised value of the attribute called `key` (exact name in XML trees, ASCII case-insensitive otherwise), else default."""
+    if is_xml_flag(el):
+        i = raw_index(rattrs(el), key, 0)
+        return default if i < 0 else norm(rattrs(el)[i][1])
+    j = raw_index_ci(rattrs(el), key, 0)
+    return default if j < 0 else norm(rattrs(el)[j][1])
+
+
+# ---------------------------------------------------------------------------------------------- :in-range / :out-of-range (C18.O4)
+from spec.calendar import html_value, week53_lenient, OptNumTup   # noqa: E402
+
+
+def out_of_range(kind: str, mn: OptNumTup, mx: OptNumTup, v: OptNumTup) -> bool:
+    """HTML: a value suffers from underflow/overflow; for time with min > max the range wraps around midnight.
+    A missing or invalid value is never out of range."""
+    if v is None or (mn is None and mx is None):
+        return False
+    if kind == 'time' and mn is not None and mx is not None and mn > mx:
+        return mx < v and v < mn
+    return (mn is not None and v < mn) or (mx is not None and v > mx)
+
+
+def range_type(el: Node) -> str:
+    return ascii_lower(as_str(attr_by_name(el, 'type', '')))
+
+
+def sem_range(m: M, el: Node, cond: Flags) -> bool:
+    """:in-range / :out-of-range for an input with a valid min or max: out of range iff the (valid) value is; else neither."""
+    k = range_type(el)
+    mn = html_value(k, as_str(attr_by_name(el, 'min', None)))
+    mx = html_value(k, as_str(attr_by_name(el, 'max', None)))
+    v = html_value(k, as_str(attr_by_name(el, 'value', None)))
+    if mn is None and mx is None:
+        return False
+    out = out_of_range(k, mn, mx, v)
+    return (not out) if (cond & SEL_IN_RANGE) != 0 else out
+
+
+def range_attrs_are_strings(el: Node) -> bool:
+    """attrs_shape_ok for the attributes match_range reads: parsers store strings for type/min/max/value."""
+    return (is_str_val(attr_by_name(el, 'type', '')) and is_str_val(attr_by_name(el, 'min', None)) and
+            is_str_val(attr_by_name(el, 'max', None)) and is_str_val(attr_by_name(el, 'value', None)))
+
+
+def week53_region(el: Node) -> bool:
+    """Known finding C18-week53-lenient seen from match_range."""
+    return range_type(el) == 'week' and (lenient_attr(attr_by_name(el, 'min', None)) or lenient_attr(attr_by_name(el, 'max', None)) or
+                                         lenient_attr(attr_by_name(el, 'value', None)))
+
+
+def lenient_attr(v: OptAttrVal) -> bool:
+    return v is not None and is_str_val(v) and week53_lenient(as_str(v))
